@@ -35,6 +35,7 @@ type report struct {
 	MapSkipped   map[string]int `json:"map_ranges_not_rewritten"`
 	GoStmts      map[string]int `json:"go_statements_with_start_point"`
 	GoSkipped    map[string]int `json:"go_statements_without_start_point"`
+	WakePoints     map[string]int `json:"wake_points_after_channel_operations"`
 	Selects        map[string]int `json:"selects_made_deterministic"`
 	SelectsSkipped map[string]int `json:"selects_left_alone"`
 }
@@ -51,7 +52,7 @@ func main() {
 	}
 	must(os.MkdirAll(*out, 0o755))
 	replace := map[string]string{}
-	rep := report{MapRanges: map[string]int{}, MapSkipped: map[string]int{}, GoStmts: map[string]int{}, GoSkipped: map[string]int{}, Selects: map[string]int{}, SelectsSkipped: map[string]int{}}
+	rep := report{MapRanges: map[string]int{}, MapSkipped: map[string]int{}, GoStmts: map[string]int{}, GoSkipped: map[string]int{}, Selects: map[string]int{}, SelectsSkipped: map[string]int{}, WakePoints: map[string]int{}}
 	mr := map[string]bool{}
 	for _, f := range strings.Split(*maprange, ",") {
 		if f != "" {
@@ -132,6 +133,11 @@ func main() {
 			for _, s := range s3 {
 				sp = append(sp, splice{s.from, s.to, s.text})
 			}
+			wk, s4 := wakeSplices(fset, f, src)
+			rep.WakePoints[rel] = wk
+			for _, s := range s4 {
+				sp = append(sp, splice{s.from, s.to, s.text})
+			}
 			{
 				// deterministic select: consumes the splices that fall inside rewritten selects
 				cur := make([]rs, len(sp))
@@ -146,7 +152,7 @@ func main() {
 					sp = append(sp, splice{x.from, x.to, x.text})
 				}
 			}
-			if n > 0 || g > 0 {
+			if n > 0 || g > 0 || wk > 0 {
 				// add the vhook import right after the package clause (same line)
 				off := fset.Position(f.Name.End()).Offset
 				sp = append(sp, splice{off, off, `; import zzvhook "` + modPath + `/zzverif/vhook"`})
@@ -284,6 +290,57 @@ func goSplices(fset *token.FileSet, f *ast.File, src []byte) (n, skipped int, ou
 				n++
 			} else {
 				skipped++
+			}
+		}
+		return true
+	})
+	return
+}
+
+// wakeSplices inserts a serialisation point (KWake: never a decision) right after
+// every place where a goroutine can be woken by a channel: the start of each
+// select case body, and after standalone receive and send statements. Goroutines
+// woken at the same instant (one timer tick, one close(ch)) thereby continue one
+// at a time in canonical order instead of in the order the Go runtime picks.
+func wakeSplices(fset *token.FileSet, f *ast.File, src []byte) (n int, out []rs) {
+	const pt = "zzvhook.Point(zzvhook.KWake, nil)"
+	pos := func(p token.Pos) int { return fset.Position(p).Offset }
+	isChanStmt := func(st ast.Stmt) bool {
+		switch x := st.(type) {
+		case *ast.SendStmt:
+			return true
+		case *ast.ExprStmt:
+			u, ok := x.X.(*ast.UnaryExpr)
+			return ok && u.Op == token.ARROW
+		case *ast.AssignStmt:
+			if len(x.Rhs) == 1 {
+				u, ok := x.Rhs[0].(*ast.UnaryExpr)
+				return ok && u.Op == token.ARROW
+			}
+		}
+		return false
+	}
+	doList := func(list []ast.Stmt) {
+		for _, st := range list {
+			if isChanStmt(st) {
+				off := pos(st.End())
+				out = append(out, rs{off, off, "; " + pt})
+				n++
+			}
+		}
+	}
+	ast.Inspect(f, func(nd ast.Node) bool {
+		switch x := nd.(type) {
+		case *ast.BlockStmt:
+			doList(x.List)
+		case *ast.CaseClause:
+			doList(x.Body)
+		case *ast.CommClause:
+			doList(x.Body)
+			if x.Comm != nil {
+				off := pos(x.Colon) + 1
+				out = append(out, rs{off, off, " " + pt + ";"})
+				n++
 			}
 		}
 		return true
